@@ -108,12 +108,18 @@ EMPTY = Seg()
 
 # ------------------------------------------------------------------ model FS
 class Node:
+    clock = 0
+
+    def touch(self):
+        self.mtime = Node.clock = Node.clock + 1
+
     def __init__(self, text=None):
         self.data = EMPTY  # kernel-visible content
         self.synced = 0  # number of bytes durable
         self.nlink = 1
         self.text = text  # concrete str content of a text file (config.json); None for binary files
         self.dbrows = None  # an SQLite index file that is not live: its committed rows (copied dumps / raw copies)
+        self.mtime = Node.clock = Node.clock + 1  # modification stamp (rsync's quick check compares size and mtime)
 
 
 class TextWriter:
@@ -150,6 +156,8 @@ class ModelFS:
         self.open_fds = {}  # fd -> path (files, directories, fcntl duplicates)
         self.fd_counter = 0
         self.max_open = 0
+        self.ropens = 0  # binary read-opens so far
+        self.perm_at = -1  # the perm_at-th read-open raises PermissionError (a file locked by someone else)
         self.clock = 0  # counts every path-level file-system call of the actor under test (observations included)
         self.events = []  # [instant, action, fired]: effects of OTHER actors, applied when the clock reaches the instant
 
@@ -235,6 +243,7 @@ class Handle:
                 self.kpos = self.kpos + len(self.buf)
             self.pos = self.pos + len(self.buf)
             self.buf = EMPTY
+            self.node.touch()
 
     def close(self):
         if not self.closed:
@@ -274,6 +283,7 @@ class Handle:
         self.node.data = self.node.data[:size]
         if self.node.synced > size:
             self.node.synced = size
+        self.node.touch()
         return size
 
     def seekable(self):
@@ -421,6 +431,9 @@ def make_open(fs):
         else:
             if path not in fs.files:
                 raise FileNotFoundError(path)
+            fs.ropens += 1
+            if fs.ropens == fs.perm_at:
+                raise PermissionError(errno.EACCES, 'Permission denied', path)
         h = Handle(fs, path, mode if 'b' in mode else mode + 't', fs.files[path])
         fs.fdtable[h.fd] = h
         return h
@@ -439,8 +452,35 @@ class Col:
     def __eq__(self, o):
         return ('eq', self.name, o)
 
+    def __ne__(self, o):
+        return ('ne', self.name, o)
+
     def __gt__(self, o):
         return ('gt', self.name, o)
+
+    def __ge__(self, o):
+        return ('ge', self.name, o)
+
+    def __lt__(self, o):
+        return ('lt', self.name, o)
+
+    def __le__(self, o):
+        return ('le', self.name, o)
+
+    def notin_(self, vals):
+        return ('notin', self.name, list(vals))
+
+    def not_in(self, vals):
+        return ('notin', self.name, list(vals))
+
+    def between(self, a, b):
+        return ('between', self.name, (a, b))
+
+    def desc(self):
+        return ('desc', self.name)
+
+    def asc(self):
+        return self
 
     __hash__ = object.__hash__
 
@@ -492,21 +532,36 @@ class Func:
     def coalesce(agg, default):
         return agg
 
+    @staticmethod
+    def max(col):
+        return Agg('max', col)
+
+    @staticmethod
+    def min(col):
+        return Agg('min', col)
+
 
 class Select:
     def __init__(self, cols):
         self.cols = cols
         self.conds = []
         self.order = None
+        self.descending = False
         self.lim = None
         self.dist = False
 
-    def where(self, c):
-        self.conds.append(c)
+    def where(self, *cs):
+        for c in cs:
+            self.conds.append(c)
         return self
 
+    filter = where
+
     def order_by(self, col):
-        self.order = col.name
+        if isinstance(col, tuple) and col[0] == 'desc':
+            self.order, self.descending = col[1], True
+        else:
+            self.order = col.name
         return self
 
     def limit(self, n):
@@ -565,24 +620,100 @@ def _affinity(name, val):
     return val
 
 
+def and_(*conds):
+    return ('and', None, list(conds))
+
+
+def or_(*conds):
+    return ('or', None, list(conds))
+
+
 def _match(row, conds):
-    for op, name, val in conds:
-        val = [_affinity(name, v) for v in val] if op == 'in' else _affinity(name, val)
+    for cond in conds:
+        if cond is True:
+            continue
+        op, name, val = cond
+        if op == 'and':
+            if not _match(row, val):
+                return False
+            continue
+        if op == 'or':
+            if not any(_match(row, [c]) for c in val):
+                return False
+            continue
+        if op in ('in', 'notin'):
+            val = [_affinity(name, v) for v in val]
+        elif op == 'between':
+            val = (_affinity(name, val[0]), _affinity(name, val[1]))
+        else:
+            val = _affinity(name, val)
         if op == 'in':
             if row[name] not in val:
+                return False
+        elif op == 'notin':
+            if row[name] in val:
                 return False
         elif op == 'eq':
             if row[name] != val:
                 return False
+        elif op == 'ne':
+            if row[name] == val:
+                return False
         elif op == 'gt':
             if not row[name] > val:
                 return False
+        elif op == 'ge':
+            if not row[name] >= val:
+                return False
+        elif op == 'lt':
+            if not row[name] < val:
+                return False
+        elif op == 'le':
+            if not row[name] <= val:
+                return False
+        elif op == 'between':
+            if not (val[0] <= row[name] <= val[1]):
+                return False
+        else:
+            raise DataDependence('unknown SQL condition %r' % (op,))
     return True
 
 
 class Result(list):
     def all(self):
         return list(self)
+
+
+class LazyResult:
+    """A SELECT result as the DB-API hands it out: the first row is fetched at execute time, the others when the caller
+    iterates -- rows that the same session deleted in the meantime are not returned any more.  ``all()`` / indexing
+    materialise at once."""
+
+    def __init__(self, session, pairs):
+        self.session, self.pairs, self.done = session, pairs, False  # pairs: [(row id, output tuple)]
+
+    def _rows(self):
+        if self.done:
+            return []
+        self.done = True
+        live = None if self.session.rows is None else [r['id'] for r in self.session.rows]
+        out = []
+        for n, (rid, tup) in enumerate(self.pairs):
+            if n == 0 or live is None or rid in live:
+                out.append(tup)
+        return out
+
+    def __iter__(self):
+        return iter(self._rows())
+
+    def all(self):
+        return self._rows()
+
+    def __getitem__(self, i):
+        return [t for _, t in self.pairs][i]
+
+    def __len__(self):
+        return len(self.pairs)
 
 
 class ModelDB:
@@ -606,6 +737,8 @@ class ModelDB:
     def disconnected(self):
         self.conns -= 1
         if self.conns == 0:
+            if self.ckpt != len(self.versions) - 1 and self.path in self.fs.files:
+                self.fs.files[self.path].touch()  # the checkpoint rewrites pages of the main file
             self.ckpt = len(self.versions) - 1
             self.fs.files.pop(self.path + '-wal', None)
             self.fs.files.pop(self.path + '-shm', None)
@@ -695,12 +828,21 @@ class ModelSession:
             a = stmt.cols[0]
             if a.kind == 'count':
                 return Result([(len(rows),)])
+            if a.kind in ('max', 'min'):
+                vals = [r[a.col.name] for r in rows]
+                if not vals:
+                    return Result([(None,)])
+                best = vals[0]
+                for v in vals[1:]:
+                    if (v > best) if a.kind == 'max' else (v < best):
+                        best = v
+                return Result([(best,)])
             tot = 0
             for r in rows:
                 tot = tot + r[a.col.name]
             return Result([(tot,)])
         if stmt.order:
-            rows = sorted(rows, key=lambda r: r[stmt.order])
+            rows = sorted(rows, key=lambda r: r[stmt.order], reverse=stmt.descending)
         else:
             rows = sorted(rows, key=lambda r: r['id'])
         if stmt.lim is not None:
@@ -711,8 +853,8 @@ class ModelSession:
             for o in out:
                 if o not in seen:
                     seen.append(o)
-            out = seen
-        return Result(out)
+            return Result(seen)
+        return LazyResult(self, [(r['id'], o) for r, o in zip(rows, out)])
 
     def scalar(self, stmt):
         return self.execute(stmt)[0][0]
@@ -970,6 +1112,7 @@ def install(fs, dbs, C, U):
     U.get_hash_cls = hasher_cls
     C.get_hash_cls = hasher_cls
     C.select, C.delete, C.update, C.text, C.func, C.Obj = select, delete, update, text, Func, MObj
+    C.and_, C.or_ = and_, or_
 
     def get_session(path, create=False):
         path = str(path)
